@@ -152,6 +152,9 @@ type decExec struct {
 	shortFaults       int
 	shortFaultInBlock int
 	shortFaultSeen    int
+	faultsSeen        int
+	lastErr           error
+	haveErr           bool
 	callLens          []int
 }
 
@@ -360,6 +363,8 @@ func (x *decExec) apply(op DOp) {
 	if x.wr != nil {
 		x.wr.beginCall()
 		x.shortFaultSeen = x.wr.shortFault
+		x.faultsSeen = x.wr.faults
+		x.haveErr = false
 	}
 	switch op.Op {
 	case "wbyte":
@@ -404,6 +409,12 @@ func (x *decExec) afterCall(what string) {
 	if what != "flush" && x.wr.calls >= 1 {
 		x.retryLoopRan++
 	}
+	// C18: a fault of the writer inside this call must come back as the
+	// writer's own error.
+	if x.haveErr && x.wr.faults > x.faultsSeen && x.lastErr != errScript {
+		x.report("C18", "%s: the writer failed during the call (%d faults) but the call returned %v instead of the writer's error",
+			what, x.wr.faults-x.faultsSeen, x.lastErr)
+	}
 	got := x.wr.got
 	if len(got) > len(x.all) || !bytesEqual(got, x.all[:len(got)]) {
 		x.report("C18", "%s: the writer has accepted %d bytes that are not a prefix of the reference expansion (%d bytes)", what, len(got), len(x.all))
@@ -432,6 +443,7 @@ func (x *decExec) doWriteByte(op DOp) {
 	if x.guard("Decoder.WriteByte", func() { err = x.dec.WriteByte(op.C) }) {
 		return
 	}
+	x.lastErr, x.haveErr = err, true
 	switch err {
 	case nil:
 		x.all = append(x.all, op.C)
@@ -474,6 +486,7 @@ func (x *decExec) doWrite(op DOp) {
 	if x.guard("Decoder.Write", func() { n, err = x.dec.Write(p) }) {
 		return
 	}
+	x.lastErr, x.haveErr = err, true
 	if n < 0 || n > len(p) {
 		x.report("C17", "Decoder.Write(%d bytes) returned n=%d", len(p), n)
 		x.dead = true
@@ -570,6 +583,7 @@ func (x *decExec) doWriteBlock(op DOp) {
 		if x.guard(what, func() { n, k, l, err = x.dec.WriteBlock(blk) }) {
 			return
 		}
+		x.lastErr, x.haveErr = err, true
 	}
 	x.nBlocks++
 	if !seqsEqual(seqs, op.Seqs) || !bytesEqual(lits, op.Lits) {
@@ -790,6 +804,7 @@ func (x *decExec) doFlush() {
 	if x.guard("Flush", func() { err = x.dec.Flush() }) {
 		return
 	}
+	x.lastErr, x.haveErr = err, true
 	switch err {
 	case nil:
 		if !bytesEqual(x.wr.got, x.all) {
